@@ -293,6 +293,10 @@ def run(chk):
         vn = v.name
         chk.analysed["variants"] = chk.analysed.get("variants", 0) + 1
         sel, points, outcomes, sets = selected_parameter_sets(chk, v)
+        # R5 "every field of the returned sets": the derived gadget fields of the TGSW parameter object (h[], offset, halfBg, maskMod)
+        # are what the decomposition assumes -- C12's rules on the constructor and the digits, re-evaluated here
+        from rules import c12 as _c12, c04 as _c04
+        _c12.check_variant(_c04._Sub(chk, "R5", skip={"R4", "R8"}), v)
         chk.set_count("R1.region_representatives", len(points))
         chk.set_count("R1.parameter_sets", len(sets))
 
